@@ -1,4 +1,5 @@
 import BinlogVerif.Reader.Filter
+import BinlogVerif.Reader.Bread
 /-
   Line-protocol glue for the reader family: canonical text of model results, so that the C++
   harness (running the real code) and the Lean driver (running the model) can be diffed.
@@ -146,6 +147,26 @@ def cmdPrint (sorted : Bool) (file : Bytes) : String :=
     | .truncPayload => items ++ [.error .truncPayload]
   let (lines, err) := if sorted then printSorted renderSimple items else printUnsorted renderSimple items
   let text := (lines.map (·.2)).flatten
+  s!"text={hex text} err={match err with | some e => e.code | none => "-"}"
+
+def parseClockSync (s : String) : Option ClockSync :=
+  match splitOn s "," with
+  | [a, b, c, d, e] => do
+    let name ← if e == "" then some [] else Bytes.ofHex e
+    pure { clockValue := ← a.toNat?, clockFrequency := ← b.toNat?, nsSinceEpoch := ← c.toNat?, tzOffset := ← d.toNat?, tzName := name }
+  | _ => none
+
+def showOutcome : Outcome Bytes → String
+  | .ok b => hex b
+  | .error e => s!"ERR:{e.code}"
+
+/-- `time <dateFmt hex> <clock,freq,ns,tzraw,tzname hex> <clock>` -/
+def cmdTime (dateFmt : Bytes) (cs : ClockSync) (clock : Nat) : String :=
+  s!"local={showOutcome (Time.printLocal dateFmt cs clock)} utc={showOutcome (Time.printUTC dateFmt cs clock)}"
+
+/-- `bread <sorted> <fmt hex> <dateFmt hex> <file hex>` -/
+def cmdBread (sorted : Bool) (fmt dateFmt file : Bytes) : String :=
+  let (text, err) := Bread.run sorted fmt dateFmt file
   s!"text={hex text} err={match err with | some e => e.code | none => "-"}"
 
 end BinlogVerif.Proto
